@@ -126,6 +126,21 @@ def run(ctx):
                         obj.order = order
                     if 'n' in kw:
                         obj.n = n
+                if cls != 'Derivative' and rng.random() < 0.25:
+                    # an earlier evaluation (another object, same number of variables) was aborted by an exception from the user
+                    # function, which the caller caught: nothing of it may survive into this evaluation
+                    cnt, kfail = [0], rng.randint(2, 2 * dim + 2)
+
+                    def bomb(t, cnt=cnt, kfail=kfail):
+                        cnt[0] += 1
+                        if cnt[0] == kfail:
+                            raise RuntimeError('user function failed')
+                        return f(t)
+                    try:
+                        C(bomb, **kw)(x + rng.choice([0.0, 0.25]))
+                    except RuntimeError:
+                        pass
+                    del rec[:]
                 far = rng.random() < 0.3
                 if far:
                     # the same object was used before at a far-away point of the same shape (nominal steps there are ~15 times larger)
